@@ -2922,15 +2922,20 @@ fn run_case_inner(prog: &Program, opts: &ExecOpts) -> Hist {
                 interleaved: 0,
             });
         }
-        match opts.mode {
+        let r = catch_unwind(AssertUnwindSafe(|| match opts.mode {
             Mode::Api => fastrace::flush(),
             Mode::Sched => {
                 #[cfg(fastrace_verif)]
                 fastrace::verif::run_collector_cycle();
             }
-        }
+        }));
         let mut w = case.w();
         let t1 = w.tick();
+        if let Err(p) = r {
+            // a collector cycle that panics (flush() hands the panic on to its caller)
+            let msg = payload_str(&p);
+            w.h.panics.push(PanicRec { vt: usize::MAX, op: "collector cycle (flush)".to_string(), msg, t: t1 });
+        }
         w.h.cycles.last_mut().unwrap().t1 = Some(t1);
         drop(w);
         if sched_mode && opts.stats {
@@ -3073,16 +3078,20 @@ fn collector_main(case: &Arc<Case>, id: usize) {
             });
             w.h.cycles.len() - 1
         };
-        match case.opts.mode {
+        let r = catch_unwind(AssertUnwindSafe(|| match case.opts.mode {
             Mode::Api => fastrace::flush(),
             Mode::Sched => {
                 #[cfg(fastrace_verif)]
                 fastrace::verif::run_collector_cycle();
             }
-        }
+        }));
         {
             let mut w = case.w();
             let t1 = w.tick();
+            if let Err(p) = r {
+                let msg = payload_str(&p);
+                w.h.panics.push(PanicRec { vt: id, op: "collector cycle (flush)".to_string(), msg, t: t1 });
+            }
             w.h.cycles[ci].t1 = Some(t1);
         }
         // a collector that keeps cycling while nothing happens (short report interval, many
